@@ -612,15 +612,19 @@ class NPShim(types.ModuleType):
     def __getattr__(self, k):
         return getattr(np, k)
 
+    @staticmethod
+    def _dtf(dtype):
+        return dtype.type if isinstance(dtype, FakeDtype) else dtype
+
     def _mk(self, a, dtype=None):
         if a.dtype.kind not in 'iubfc':
             return a            # strings etc. stay native
         dt = np.dtype(dtype).type if dtype is not None else a.dtype.type
         return SymArray(a.astype(object), dt, self._dom)
 
-    def zeros(self, shape, dtype=float, **k): return self._mk(np.zeros(shape, dtype=dtype))
-    def ones(self, shape, dtype=float, **k): return self._mk(np.ones(shape, dtype=dtype))
-    def empty(self, shape, dtype=float, **k): return self._mk(np.zeros(shape, dtype=dtype))
+    def zeros(self, shape, dtype=float, **k): return self._mk(np.zeros(shape, dtype=self._dtf(dtype)))
+    def ones(self, shape, dtype=float, **k): return self._mk(np.ones(shape, dtype=self._dtf(dtype)))
+    def empty(self, shape, dtype=float, **k): return self._mk(np.zeros(shape, dtype=self._dtf(dtype)))
     def eye(self, n, M=None, k=0, dtype=float, **kw): return self._mk(np.eye(n, M, k, dtype=dtype))
     def arange(self, *a, **k): return np.arange(*a, **k)
     def diag(self, v, k=0):
